@@ -211,9 +211,15 @@ def tailShape (f : Tail) : List (Rat × List Nat) × List Nat := (f.seg.map step
 def tied (c : Tail) (fins : List Tail) : Bool :=
   fins.any (fun f => f.slot != c.slot && f.t == c.t && decide (tailShape f ≠ tailShape c))
 
-/-- the last step of a branch that does not go on with the join: what it acknowledges at once is acknowledged -/
+/-- the last step of a branch that does not go on with the join: what it acknowledges at once is acknowledged
+(`extra`: what it publishes before) -/
 def closeFin (f : Tail) (extra : List BFr) (steps : List BStep) : List BStep :=
   mkStep f.t (f.frames.reverse ++ extra ++ f.now.map .ack) true steps
+
+/-- the last steps of the branches `fs` are closed, in order -/
+def closeWith (ex : Tail → List BFr) : List Tail → List BStep → List BStep
+  | [], steps => steps
+  | f :: fs, steps => closeWith ex fs (closeFin f (ex f) steps)
 
 /-- a branch whose last step is closed: it only holds -/
 def holding (f : Tail) : Tail := { f with frames := [], now := [], owed := f.hold }
@@ -223,13 +229,24 @@ def popLevel (fs : FS) : FS :=
   | [] => { fs with lvl := {} }
   | l :: ls => { fs with lvl := l, outer := ls }
 
-def closeAll : List Tail → List BStep → List BStep
-  | [], steps => steps
-  | f :: fs, steps => closeAll fs (closeFin f [] steps)
+def closeAll : List Tail → List BStep → List BStep := closeWith (fun _ => [])
 
 /-- all branches have ended.  The step of the one that ends last (if the fan-out failed: of the one whose
 failure is the fan-out's) goes on; the others' last steps are closed, in slot order; the thread of the fan-out
 state now has to acknowledge what was held, in slot order, then what the step that goes on acknowledges anyway -/
+def joinOn (fs : FS) (c : Tail) (tie : Bool) : FS :=
+  let fins := fs.lvl.fins
+  let same := fins.filter (fun f => f.slot == c.slot)
+  let rest := fins.filter (fun f => !(f.slot == c.slot))
+  popLevel
+    { fs with steps := closeAll rest fs.steps,
+              open_ := same.flatMap (·.frames) ++ fs.open_,
+              hold := fs.hold ++ fins.flatMap (·.hold), now := fs.now ++ same.flatMap (·.now),
+              owed := fs.owed ++ rest.flatMap (·.hold) ++ same.flatMap (·.owed),
+              rel := true, path := fs.lvl.path, mark := fs.lvl.mark,
+              tieJoin := fs.tieJoin || tie,
+              lvl := { fs.lvl with fins := [] } }
+
 def join (fs : FS) (failed : Bool) : FS :=
   let fins := fs.lvl.fins
   let cur := fins.filter (fun f => fs.lvl.lo ≤ f.slot)
@@ -237,39 +254,31 @@ def join (fs : FS) (failed : Bool) : FS :=
   let co : Option Tail := if failed then (match firstFailed fins with | some f => some f | none => pick) else pick
   match co with
   | none => { popLevel fs with path := fs.lvl.path, mark := fs.lvl.mark }
-  | some c =>
-    let same := fins.filter (fun f => f.slot == c.slot)
-    let rest := fins.filter (fun f => !(f.slot == c.slot))
-    let fs1 : FS :=
-      { fs with steps := closeAll rest fs.steps,
-                open_ := same.flatMap (·.frames) ++ fs.open_,
-                hold := fs.hold ++ fins.flatMap (·.hold), now := fs.now ++ same.flatMap (·.now),
-                owed := fs.owed ++ rest.flatMap (·.hold) ++ same.flatMap (·.owed),
-                rel := true, path := fs.lvl.path, mark := fs.lvl.mark,
-                tieJoin := fs.tieJoin || tied c cur,
-                lvl := { fs.lvl with fins := [] } }
-    popLevel fs1
+  | some c => fs.joinOn c (tied c cur)
 
-def closeBatch (c : Nat) (rp : BFr) : List Tail → List BStep → List BStep
-  | [], steps => steps
-  | f :: fs, steps => closeBatch c rp fs (closeFin f (if f.slot = c then [rp] else []) steps)
+/-- … of a batch: the one in slot `c` publishes the re-entry event `rp` -/
+def closeBatch (c : Nat) (rp : BFr) : List Tail → List BStep → List BStep :=
+  closeWith (fun f => if f.slot = c then [rp] else [])
 
 /-- a batch of a Map state with MaxConcurrency is complete (more are to come): the last of the batch publishes
 the event that re-enters the Map state (`name`); every last step of the batch is closed; the re-entry event is
 delivered; its delegate launches the next batch (`names`) -/
-def batch (fs : FS) (t : Rat) (name : Str) (names : List Str) : FS :=
+def batchOn (fs : FS) (t : Rat) (name : Str) (names : List Str) (c : Tail) (tie : Bool) : FS :=
   let fins := fs.lvl.fins
   let cur := fins.filter (fun f => fs.lvl.lo ≤ f.slot)
+  let r := fs.next
+  let fs1 : FS :=
+    { fs with steps := closeBatch c.slot (.pubEv r name fs.lvl.path) cur fs.steps,
+              lvl := { fs.lvl with fins := fins.map (fun f => if fs.lvl.lo ≤ f.slot then holding f else f) },
+              next := r + 1, rel := false,
+              tieJoin := fs.tieJoin || tie }
+  ((fs1.deliverHold r).closeKeep t).launch t names
+
+def batch (fs : FS) (t : Rat) (name : Str) (names : List Str) : FS :=
+  let cur := fs.lvl.fins.filter (fun f => fs.lvl.lo ≤ f.slot)
   match latest cur with
   | none => fs
-  | some c =>
-    let r := fs.next
-    let fs1 : FS :=
-      { fs with steps := closeBatch c.slot (.pubEv r name fs.lvl.path) cur fs.steps,
-                lvl := { fs.lvl with fins := fins.map (fun f => if fs.lvl.lo ≤ f.slot then holding f else f) },
-                next := r + 1, rel := false,
-                tieJoin := fs.tieJoin || tied c cur }
-    ((fs1.deliverHold r).closeKeep t).launch t names
+  | some c => fs.batchOn t name names c (tied c cur)
 
 /-- the frames of all closed steps, oldest first -/
 def frames (fs : FS) : List BFr := fs.steps.reverse.flatMap (·.frames)
